@@ -40,6 +40,10 @@ CHECKS = {
   text="Exhaustive crash-point enumeration on the real searcher: for every input up to a length bound, every configuration / binary mode / matcher path / strategy, the search is re-run once per result index k with the sink answering stop and once answering error (for every event kind: begin, matched, context, context_break, binary_data), and once per read index j with the reader failing and with the reader returning Interrupted; plus -m N through the standard printer for every N. Oracle: exact prefix of the uninterrupted event list, finish exactly once after a stop and never after an error, the injected error is what the caller gets.",
   note="Trusted: the uninterrupted run of the same strategy as the reference list (C02/C03 check that list itself). Not judged: -m N in multi-line mode when two matching lines are adjacent (they are one block by design, DESIGN.md §8).",
   tech="exhaustive fault / crash-point enumeration over all result and read indices of all small histories"),
+ "C17": dict(cat="exploration", ref="DESIGN.md §4 C17",
+  text="Bounded exhaustive enumeration: every text of <= 3 (quick) / 4 (thorough) code units per source encoding (UTF-16 LE/BE incl. surrogate pairs, lone surrogates and a trailing odd byte; UTF-8 incl. malformed sequences; latin1; shift_jis) under 17 BOM / --encoding combinations (mark overriding a conflicting label, --encoding none with a mark), also aligned to the 8 KiB transcoding buffer at offsets -6..6; x search_slice, search_path with/without mmap, search_reader with roll-buffer capacity 1/3/8 x every composition of the input length as read sizes; x four patterns (one multi-line). Reference: encoding_rs applied in the harness, then a plain slice search of the UTF-8 result; full Sink event streams compared.",
+  note="Trusted: encoding_rs as the meaning of each encoding. Three open known findings, all inside the encoding_rs_io / encoding_rs dependencies (pending bytes dropped after EOF on tiny reads; UTF-8 mark not overriding a label; incomplete trailing sequence dropped), each recognised by a counterfactual switch of the reference.",
+  tech="bounded exhaustive enumeration of texts x encodings x strategies x read/buffer histories against a reference transcoder"),
 }
 
 NOT_YET = "check not built yet in this round (planned in DESIGN.md §10); not claimed until its engine is committed"
